@@ -4,7 +4,9 @@ pub mod c05;
 pub mod c07;
 pub mod c08;
 pub mod c09;
+pub mod c11;
 pub mod c15;
+pub mod c18;
 
 use crate::obs::Ctx;
 
@@ -14,7 +16,9 @@ pub fn run(check: &str, ctx: &mut Ctx) -> bool {
         "c07" => c07::run(ctx),
         "c08" => c08::run(ctx),
         "c09" => c09::run(ctx),
+        "c11" => c11::run(ctx),
         "c15" => c15::run(ctx),
+        "c18" => c18::run(ctx),
         _ => return false,
     }
     true
@@ -62,6 +66,16 @@ pub fn selftest() -> Result<(), String> {
             if c != R::C_NONE && (back != b || used != z.len()) {
                 return Err(format!("reference codec {} consumed {used} of {} bytes", R::codec_name(c), z.len()));
             }
+        }
+    }
+    // the independent JSON reader returns exactly what was serialised
+    for i in 0..300 {
+        let mut rng = crate::rng::Rng::new(5000 + i);
+        let m = crate::gen::gen_metadata(&mut rng);
+        let text = serde_json::to_vec(&m).map_err(|e| e.to_string())?;
+        let back = R::json_parse(&text)?;
+        if back != serde_json::Value::Object(m) {
+            return Err(format!("independent JSON reader disagrees on {}", String::from_utf8_lossy(&text)));
         }
     }
     // foreign archives must be accepted by the reference validator
